@@ -115,13 +115,17 @@ def run_fuzz(r, target, pid, secs, empty_corpus_too=False, prefix=True):
             if fails < 3:
                 r.stats.extra["fuzz_flaky_artifacts"] += 1
                 continue
+            m = re.search(r"(VT-ORACLE: .*|AddressSanitizer: [\w-]+|runtime error: .*|ERROR: libFuzzer: [\w -]+)", out)
+            what = m.group(1) if m else "fuzz target failed"
+            fr = re.findall(r"#\d+ 0x[0-9a-f]+ in (cfg_\w+|q\w+|trim_\w+|call_function|parse_title) ", out)
+            sig = "fuzz/%s/%s" % (what[:60], fr[0] if fr else "?")
+            if any(v[0].sig == sig for v in r.violations):
+                r.stats.extra["further_failures_same_signature"] += 1      # one artifact per signature is kept and reported
+                continue
             keep = os.path.join(os.environ.get("VERIF_REPLAY_DIR") or os.path.join(VERIF, "replays"), pid)
             os.makedirs(keep, exist_ok=True)
             dst = os.path.join(keep, "fuzz-" + a)
             shutil.copy(p, dst)
-            m = re.search(r"(VT-ORACLE: .*|AddressSanitizer: [\w-]+|runtime error: .*|ERROR: libFuzzer: [\w -]+)", out)
-            what = m.group(1) if m else "fuzz target failed"
-            fr = re.findall(r"#\d+ 0x[0-9a-f]+ in (cfg_\w+|q\w+|trim_\w+|call_function|parse_title) ", out)
             r.violations.append((Failure("fuzz/%s/%s" % (what[:60], fr[0] if fr else "?"), out[-2500:], {"fuzz_artifact": dst}), dst))
         r.stats.extra["fuzz_noise_artifacts"] += noise
         shutil.rmtree(wd, ignore_errors=True)
